@@ -235,7 +235,7 @@ impl Prop for C15 {
     fn budget(tier: Tier) -> Budget {
         match tier {
             Tier::Quick => Budget { cases: 10000, shards: 16 },
-            Tier::Thorough => Budget { cases: 120_000, shards: 16 },
+            Tier::Thorough => Budget { cases: 360000, shards: 16 },
         }
     }
 
